@@ -353,12 +353,17 @@ void ezc3d::c3d::point(const std::vector<ezc3d::DataNS::Frame>& frames)
         throw std::invalid_argument("Points in the frames cannot be empty");
 
     std::vector<std::string> labels(parameters().group("POINT").parameter("LABELS").valuesAsString());
+    // Validate all the new points before modifying the data set, so a refused call leaves it unchanged
+    for (size_t f=0; f<frames.size(); ++f)
+        if (frames[f].points().nbPoints() < frames[0].points().nbPoints())
+            throw std::invalid_argument("All the frames must have the points of the first one");
     for (size_t idx = 0; idx < frames[0].points().nbPoints(); ++idx){
         const std::string &name(frames[0].points().point(idx).name());
         for (size_t i=0; i<labels.size(); ++i)
             if (!name.compare(labels[i]))
                 throw std::invalid_argument("The point you try to create already exists in the data set");
-
+    }
+    for (size_t idx = 0; idx < frames[0].points().nbPoints(); ++idx){
         for (size_t f=0; f<data().nbFrames(); ++f)
             _data->frame_nonConst(f).points_nonConst().point(frames[f].points().point(idx));
     }
@@ -397,12 +402,21 @@ void ezc3d::c3d::analog(const std::vector<ezc3d::DataNS::Frame> &frames)
         throw std::invalid_argument("Channels in the frame cannot be empty");
 
     std::vector<std::string> labels(parameters().group("ANALOG").parameter("LABELS").valuesAsString());
+    // Validate all the new channels before modifying the data set, so a refused call leaves it unchanged
+    for (size_t f=0; f < frames.size(); ++f){
+        if (frames[f].analogs().nbSubframes() < header().nbAnalogByFrame())
+            throw std::invalid_argument("All the frames must have the subframes of the first one");
+        for (size_t sf=0; sf < header().nbAnalogByFrame(); ++sf)
+            if (frames[f].analogs().subframe(sf).nbChannels() < frames[0].analogs().subframe(0).nbChannels())
+                throw std::invalid_argument("All the subframes must have the channels of the first one");
+    }
     for (size_t idx = 0; idx < frames[0].analogs().subframe(0).nbChannels(); ++idx){
         const std::string &name(frames[0].analogs().subframe(0).channel(idx).name());
         for (size_t i=0; i<labels.size(); ++i)
             if (!name.compare(labels[i]))
                 throw std::invalid_argument("The channel you try to create already exists in the data set");
-
+    }
+    for (size_t idx = 0; idx < frames[0].analogs().subframe(0).nbChannels(); ++idx){
         for (size_t f=0; f < data().nbFrames(); ++f){
             for (size_t sf=0; sf < header().nbAnalogByFrame(); ++sf){
                 _data->frame_nonConst(f).analogs_nonConst().subframe_nonConst(sf).channel(frames[f].analogs().subframe(sf).channel(idx));
